@@ -78,3 +78,10 @@ Definition quoted_roundtrips (q:bytes) : bool :=
 (* class of a constructor output: 0 = fine, 1 = accepted but does not survive the round trip (known finding D8) *)
 Definition ctor_class (ty:N) (s:bytes) : N :=
   match ctor_of ty s with VOk q => if quoted_roundtrips q then 0 else 1 | _ => 0 end.
+
+(* the shape of a D8 output, recognisable on the stored value alone (used when the constructor is outside the model: a
+   non-ASCII realm, whose PRECIS step is not modelled): the text ends with a backslash that is not the second half of a
+   quoted-pair, i.e. with an odd number of backslashes — the grammar accepts no such text, only the trimming of the second
+   character of a final quoted-pair produces it *)
+Fixpoint trailing_backslashes (r:bytes) : N := match r with 92 :: t => 1 + trailing_backslashes t | _ => 0 end.
+Definition dangling_backslash (q:bytes) : bool := N.odd (trailing_backslashes (rev q)).
